@@ -304,9 +304,10 @@ func realise(v any) any {
 }
 
 type faultWriter struct {
-	kind string
-	k    int
-	buf  []byte
+	kind  string
+	k     int
+	buf   []byte
+	fired bool
 }
 
 var errInjected = errors.New("injected write error")
@@ -316,6 +317,23 @@ func (w *faultWriter) Write(p []byte) (int, error) {
 	case "":
 		w.buf = append(w.buf, p...)
 		return len(p), nil
+	case "eagain_once", "eintr_once":
+		// a transient condition: the write is cut short once (some bytes are
+		// taken), every later write succeeds
+		if w.fired || len(w.buf)+len(p) <= w.k {
+			w.buf = append(w.buf, p...)
+			return len(p), nil
+		}
+		w.fired = true
+		room := w.k - len(w.buf)
+		if room < 0 {
+			room = 0
+		}
+		w.buf = append(w.buf, p[:room]...)
+		if w.kind == "eintr_once" {
+			return room, syscall.EINTR
+		}
+		return room, syscall.EAGAIN
 	default:
 		room := w.k - len(w.buf)
 		if room < 0 {
